@@ -694,6 +694,6 @@ def check_any(ctx, case):
 
 
 FAMILIES = [
-    Family('files', check_any, strategy=lambda tier: files_case(), n=(1200, 25000)),
-    Family('histories', check_any, stateful=run_histories, n=(320, 8000)),
+    Family('files', check_any, strategy=lambda tier: files_case(), n=(1200, 100000)),
+    Family('histories', check_any, stateful=run_histories, n=(320, 40000)),
 ]
